@@ -12,6 +12,7 @@ def run(ctx, rep):
     cerules.check_parent(ctx, rep)
     oprules.check_assemble(ctx, rep)
     bt.check_prev(ctx, rep)
+    bt.check_atom_models(ctx, rep)
     walkrules.check_result_events(ctx, rep)
     walkrules.check_other_pos(ctx, rep)
     walkrules.check_walk(ctx, rep)
